@@ -296,6 +296,10 @@ type e2eWire struct {
 	mutNew     string
 	mutType    string // when not empty also replace the type
 	mutApplied bool
+	// a second replacement in the same run (two fields of the peer that only do harm together)
+	mut2G       int
+	mut2New     string
+	mut2Applied bool
 	// onMsg is called (under the wire lock released) for every parsed message before it is
 	// delivered (phase "before") and after the write that completed it was delivered ("after").
 	onMsg func(m *e2eMsg, phase string)
@@ -314,7 +318,7 @@ type e2eWire struct {
 }
 
 func newE2EWire(seed int64, maxChunk int) *e2eWire {
-	w := &e2eWire{actProt: -1, silenceK: -1, mutG: -1, holdK: -1}
+	w := &e2eWire{actProt: -1, silenceK: -1, mutG: -1, mut2G: -1, holdK: -1}
 	mk := func(dir string, s int64) *e2ePipe {
 		p := &e2ePipe{w: w, dir: dir, maxChunk: maxChunk, rng: rand.New(rand.NewSource(seed*7919 + s))}
 		p.parser = &e2eParser{dir: dir, binary: &w.binary, winNL: &w.winNL}
@@ -365,6 +369,9 @@ func (p *e2ePipe) Write(b []byte) (int, error) {
 		if m.G == w.mutG && !w.mutApplied && m.Off >= base && m.Off+m.Len <= base+len(b) && len(out) == len(b) {
 			out = e2eMutateLine(out, m.Off-base, w.mutType, w.mutNew)
 			w.mutApplied = true
+		} else if m.G == w.mut2G && !w.mut2Applied && m.Off >= base && m.Off+m.Len <= base+len(b) && len(out) == len(b) {
+			out = e2eMutateLine(out, m.Off-base, "", w.mut2New)
+			w.mut2Applied = true
 		}
 	}
 	p.sent += len(b)
